@@ -324,7 +324,9 @@ v6_int = st.one_of(
 # separators: never empty, never containing [A-Za-z0-9.:], so every token stands alone
 SEPARATORS = [" ", "  ", "\t", ", ", " - ", " (", ") ", ";", " | ", "=", " \"", "\" ", "[", "] ", "{", "} ", "_", "~", "@", "#", "é", " ", ",", "+", "<", ">", "!", "?", "'", "*", "%", "&", "^", "\\", "$", "\x0c", "\x0b", "\x1c", "\x85", "\u2028", "\u0664", "\u0968", "\uff17"]
 WORDS = ["caf\u00e9", "\u00c5re", "\u00e0", "na\u00efve", "interface", "ip", "address", "permit", "host", "eq", "www", "mtu", "1500", "Gi0/1", "description", "neighbor", "remote-as", "route-map", "vlan10", "x"]
-NEAR_MISSES = ["1.2.3", "1.2.3.4.5", "256.1.1.1", "1.2.3.999", "1.2.3.4a", "a1.2.3.4", "aa:bb:cc:dd:ee:ff", "12:34", "1:2:3:4:5:6:7:8:9", "1::2::3", "12345::1", "g::1", "1.2.3.", ".1.2.3.4", "00:11:22:33:44:55", "0011.2233.4455"]
+NEAR_MISSES = ["1.2.3", "1.2.3.4.5", "256.1.1.1", "1.2.3.999", "1.2.3.4a", "a1.2.3.4", "aa:bb:cc:dd:ee:ff", "12:34", "1:2:3:4:5:6:7:8:9", "1::2::3", "12345::1", "g::1", "1.2.3.", ".1.2.3.4", "00:11:22:33:44:55", "0011.2233.4455",
+               # link-local look-alikes that the address pattern matches and the address parser refuses
+               "fe80:%x", "fe80:::%1", "fe80:%eth0", "fe80::1::2%ge0"]
 
 
 @st.composite
